@@ -77,6 +77,15 @@ let handle (toks : string list) : string =
            if cls <> [] then "chk " ^ String.concat "," cls ^ (if model <> impl then " (and model differs)" else "")
            else if model <> impl then "diff session_trace model=" ^ model else "ok nt"
        | _ -> "bad line")
+  | "I" :: size :: ooo :: idle :: nrows :: rest ->
+      (match split_hash rest with
+       | [ []; emits; dels ] | [ emits; dels ] ->
+           let rec pairs = function a :: b :: r -> (zs a, zs b) :: pairs r | [] -> [] | _ -> failwith "bad emits" in
+           let rec triples = function a :: b :: c :: r -> ((zs a, zs b), zs c) :: triples r | [] -> [] | _ -> failwith "bad deliveries" in
+           let cls = chk_idle (zs idle) (zs ooo) (z_of_int 60) (zs nrows) (pairs emits) (triples dels) in
+           if cls = [] then "ok nt"
+           else "chk " ^ String.concat "," (List.map (function IEarlyFire -> "idle_early_fire" | IRowsLost -> "idle_rows_lost" | INeverFired -> "idle_never_fired") cls)
+       | _ -> "bad line")
   | _ -> "bad line"
 
 let () = Registry.register "C02" handle
